@@ -90,6 +90,22 @@ __CPROVER_assigns(__CPROVER_object_whole(w));
   __CPROVER_assigns(__CPROVER_object_whole(w));
 C10_PPUT64(C10_writer_pput_u64l, C10_LE_BYTE)
 C10_PPUT64(C10_writer_pput_u64b, C10_BE64_BYTE)
+/* the other widths of the same family, so that a variant of the code that stores the length field differently still
+ * reaches the verifier (which then judges it against the standard's padding rule) instead of breaking the extraction */
+#define C10_PPUTN(NAME, T, N, BYTEK)                                                                                     \
+  void NAME(C10_writer* w, size_t off, T v)                                                                              \
+  __CPROVER_requires(__CPROVER_w_ok(w, sizeof(C10_writer)) && w->size <= C10_WCAP && off <= C10_WCAP - N)                \
+  __CPROVER_ensures(w->size == ((off + N > __CPROVER_old(w->size)) ? off + N : __CPROVER_old(w->size)))                  \
+  __CPROVER_ensures((g_wi >= off && g_wi < off + N) ==> C10_WAT(w) == BYTEK(v, g_wi - off))                           \
+  __CPROVER_ensures((g_wi < __CPROVER_old(w->size) && (g_wi < off || g_wi >= off + N)) ==> C10_WAT(w) == __CPROVER_old(C10_WAT(w))) \
+  __CPROVER_ensures((g_wi >= __CPROVER_old(w->size) && g_wi < off) ==> C10_WAT(w) == 0)                               \
+  __CPROVER_assigns(__CPROVER_object_whole(w));
+#define C10_BE16_BYTE(v, k) VBYTE(v, 1 - (k))
+C10_PPUTN(C10_writer_pput_u32l, uint32_t, 4, C10_LE_BYTE)
+C10_PPUTN(C10_writer_pput_u32b, uint32_t, 4, C10_BE32_BYTE)
+C10_PPUTN(C10_writer_pput_u16l, uint16_t, 2, C10_LE_BYTE)
+C10_PPUTN(C10_writer_pput_u16b, uint16_t, 2, C10_BE16_BYTE)
+C10_PPUTN(C10_writer_pput_u8, uint8_t, 1, C10_LE_BYTE)
 
 /* le_uint32_t: C03 proves conv == little-endian numeral of the stored bytes */
 typedef struct __attribute__((packed)) { uint32_t value; } le_uint32_t;
